@@ -150,6 +150,30 @@ PROPS["C12"] = dict(
     assumptions=["-name is judged on subjects that can be file names (no '/', not '.' or '..')"],
 )
 
+PROPS["C17"] = dict(
+    level_text="Patterns are abstract syntax trees; membership of a string in the language of a tree is defined declaratively in TLA+ (sets of end "
+               "positions - no notion of first alternative or greediness), and each tree is written out in emacs, posix-basic/ed/sed, "
+               "posix-extended and grep syntax by the specification. TLC enumerates every tree up to size N x syntax x -regex/-iregex x "
+               "anchored-or-not, checks laws (alternation commutes, grouping neutral, x+ = xx*, -iregex selects a superset) and prints the set "
+               "of fixture paths each pattern selects; a second instance enumerates command-line shapes with -regextype before, inside and after "
+               "parentheses (positional: the nearest preceding one is in force). All cases are replayed on the real find; random larger trees "
+               "with subjects sampled from their language are validated by TLC.",
+    level_note="Trusted: TLC; the harness's fixture and, for recorded runs, its rendering of trees - re-rendered by the specification and only judged "
+               "when identical. Constructs POSIX leaves undefined in a syntax (\\| \\+ \\? in basic expressions, intervals in emacs) are out of domain; "
+               "back-references and syntax-specific extensions are not covered.",
+    mc=[dict(module="mc/MC_Regex.tla", cfg=dict(quick="mc/MC_Regex_lang_quick.cfg", thorough="mc/MC_Regex_lang_thorough.cfg"), workers=8),
+        dict(module="mc/MC_Regex.tla", cfg=dict(quick="mc/MC_Regex_scope_quick.cfg", thorough="mc/MC_Regex_scope_thorough.cfg"), workers=8)],
+    record=dict(quick=600, thorough=15000),
+    selftest=dict(quick=40, thorough=200),
+    trace=dict(module="trace/T_Regex.tla", cfg="trace/T_Regex.cfg"),
+    trace_chunk=300,
+    rule="MC lang: all trees up to size N over atoms {a, b, ., [ab], [^a]} with star/plus/opt/group/interval/cat/alt x {no -regextype, 6 syntaxes} x icase x "
+         "{pattern prefixed by the literal r/, bare}; 15 fixture paths (r, r/a .. r/b/ab, r/A, r/aB). MC scope: trees up to size 2 x 8 shapes x 9 type pairs. "
+         "Trace: random trees up to size 12 over 10 characters incl. regex metacharacters as literals, subjects sampled from the language and mutated.",
+    exhaustive_note="bounded-exhaustive over trees up to size N",
+    assumptions=[],
+)
+
 _WALK_NOTE = ("Trusted: TLC; the harness's materialisation of tree values (mkdir/symlink) and the in-process call of find_main with captured "
               "output. Unreadable directories cannot be produced as root in-process and are exercised by C11's fixture only. Link targets are "
               "non-links or dangling (no link-to-link chains).")
@@ -199,3 +223,33 @@ def m_H_depth_symlink_root(fail):
         if n and t[n - 1]["kind"] == "l" and t[n - 1]["target"] and t[t[n - 1]["target"] - 1]["kind"] == "d":
             return True
     return False
+
+
+def _re_has(e, pred):
+    if not isinstance(e, dict):
+        return False
+    if pred(e):
+        return True
+    return any(_re_has(e.get(k), pred) for k in ("a", "b"))
+
+
+_QUANT = ("star", "plus", "opt", "rep")
+
+
+def m_regex_not_longest(fail):
+    """C17: only missing selections (never extra ones), and the pattern tree has an alternation or a
+    repetition nested in a repetition - the shapes where a backtracking engine's first match is not the longest.
+    Vectors carry no tree; the pattern text is inspected for '|' / nested groups then."""
+    o = fail["obs"]
+    if o.get("panic") or "exit" in o:
+        return False
+    exp = set(fail["exp"]["m"])
+    obs = set(o.get("m", []))
+    if not (obs < exp):
+        return False
+    ast = fail["in"].get("ast")
+    if ast is not None:
+        return _re_has(ast, lambda e: e.get("t") == "alt") or \
+            _re_has(ast, lambda e: e.get("t") in _QUANT and _re_has(e.get("a"), lambda x: x.get("t") in _QUANT))
+    pat = bytes(fail["in"]["pattern"]).decode("utf-8", "replace") if all(c < 256 for c in fail["in"]["pattern"]) else ""
+    return "|" in pat or pat.count("(") >= 2
